@@ -102,7 +102,7 @@ func c08Dispatch(c *Ctx, r *Report, a *Anchors) {
 				continue
 			}
 			// concrete: must be selected under objType == meta
-			sel := hasGuard(ci.Block(), func(g guard) bool {
+			typeEqMeta := func(g guard) bool {
 				bo, ok := g.cond.(*ssa.BinOp)
 				if !ok || bo.Op != token.EQL || !g.val {
 					return false
@@ -125,7 +125,33 @@ func c08Dispatch(c *Ctx, r *Report, a *Anchors) {
 					return ok && call.Call.StaticCallee() != nil && c.inPkg(call.Call.StaticCallee())
 				}
 				return (isTypeOf(bo.X) && isMeta(bo.Y)) || (isTypeOf(bo.Y) && isMeta(bo.X))
-			})
+			}
+			sel := hasGuard(ci.Block(), typeEqMeta)
+			if !sel {
+				// the member was picked first and is handed on afterwards: every non-nil value the
+				// argument can hold was assigned on an edge where TypeOf(obj) == meta holds
+				ls, _ := phiLeaves(stripIface(targ))
+				nonNil := 0
+				all := true
+				for _, lf := range ls {
+					if isNilConst(lf.val) {
+						continue
+					}
+					nonNil++
+					okLeaf := false
+					if lf.pred != nil {
+						for _, g := range edgeGuards(lf.pred, lf.phi.Block()) {
+							if typeEqMeta(normGuard(g)) {
+								okLeaf = true
+							}
+						}
+					}
+					if !okLeaf {
+						all = false
+					}
+				}
+				sel = all && nonNil > 0
+			}
 			r.check("C08.DISPATCH", key, ci.Pos(), sel, "the concrete type is not selected by comparing reflect.TypeOf(obj) with the candidate's bound Go type")
 		}
 	}
@@ -475,7 +501,7 @@ func c08Bind(c *Ctx, r *Report) {
 				"a field definition owned by another type (an interface shared by several object types) is bound to one object's Go type: values of the other implementers are then read through the wrong field or method; "+why)
 		}
 	}
-	r.floor("C08.BIND", "calls to the field binder", n, 3)
+	r.floor("C08.BIND", "calls to the field binder", n, 2) // the reflection resolver and RegisterField; one call per container kind is not required
 }
 
 // c08OneBinding: Object.meta is the only record of which Go type is bound to which object type. A second
